@@ -468,24 +468,28 @@ C08(pre, ev, post, aux) ==
                             /\ SubSeq(post.dev[d].collected, Len(pre.dev[d].collected) + 1, Len(post.dev[d].collected))
                                   = [i \in DOMAIN Occ(ev, "recv", d) |-> Occ(ev, "recv", d)[i][3]])
     \cup C("C08.IdleLongestReceives",
-           \* one hand-over from the dispatching device u to a single-slot x, directly or through one open gate /
-           \* junction: no other single-slot device reachable the same way that would have taken the part had been
-           \* idle longer (directly connected devices that have been idle equally long are served in list order)
-           (IsStep(ev) /\ ev.kind = "pass" /\ ~ev.cancelled /\ Len(ev.occ) >= 1 /\ ev.occ[1][1] = "recv" /\ ev.asset \in Devs) =>
+           \* every hand-over of this step from the dispatching device u to a single-slot device x, directly or through
+           \* one open gate / junction (a buffer may hand over several items in one step): no other single-slot device
+           \* reachable the same way, still free in this step, that would have taken the part had been idle longer
+           \* (directly connected devices that have been idle equally long are served in list order)
+           (IsStep(ev) /\ ev.kind = "pass" /\ ~ev.cancelled /\ ev.asset \in Devs) =>
               LET u == ev.asset
-                  x == ev.occ[1][2]
-                  p == ev.occ[1][3]
                   ds == pre.down[u]
                   Pos(y) == CHOOSE i \in DOMAIN ds : ds[i] = y
-                  Open(g) == Kind(g) \in {"gate", "junction"} /\ ~pre.dev[g].blocked /\ Pred(pre, g, p)
+                  Open(g, p) == Kind(g) \in {"gate", "junction"} /\ ~pre.dev[g].blocked /\ Pred(pre, g, p)
                   direct == {y \in Range(ds) : SingleSlotKind(y)}
-                  behind == UNION {{y \in Range(pre.down[g]) : SingleSlotKind(y)} : g \in {h \in Range(ds) : Open(h)}}
+                  Behind(p) == UNION {{y \in Range(pre.down[g]) : SingleSlotKind(y)} : g \in {h \in Range(ds) : Open(h, p)}}
+                  Earlier(i) == {ev.occ[j][2] : j \in 1..(i - 1)}
               IN
-              (x \in direct \cup behind /\ p \in DOMAIN pre.part) =>
-                 \A y \in (direct \cup behind) \ {x} :
-                    WouldTake(pre, y, p, 0) =>
-                        (aux.idle[x] < aux.idle[y]
-                         \/ (aux.idle[x] = aux.idle[y] /\ (x \in direct /\ y \in direct => Pos(x) < Pos(y)))))
+              \A i \in DOMAIN ev.occ :
+                 LET x == ev.occ[i][2]
+                     p == ev.occ[i][3] IN
+                 (ev.occ[i][1] = "recv" /\ p \in DOMAIN pre.part /\ x \in direct \cup Behind(p) /\ x \notin Earlier(i)
+                  /\ (Kind(u) = "buffer" \/ i = 1)) =>
+                    \A y \in (direct \cup Behind(p)) \ ({x} \cup Earlier(i)) :
+                       WouldTake(pre, y, p, 0) =>
+                           (aux.idle[x] < aux.idle[y]
+                            \/ (aux.idle[x] = aux.idle[y] /\ (x \in direct /\ y \in direct => Pos(x) < Pos(y)))))
 
 (***************************************************************************)
 (* C17  batching keeps order and exact batch sizes                         *)
